@@ -22,7 +22,7 @@ Proof. split; reflexivity. Qed.
 (* the character constants of the tokenizer model are the ones the source compares against *)
 Theorem tokenizer_literals_match :
   tokenize_literals =
-  [[cBS]; [cRB; cBT; cPCT]; [cDQ; cPCT; cSQ; cRP; cRS; cBT; cRB]; [cBT; cLP; cLS; cDQ; cSQ]; [cRB; cRP; cRS];
+  [[cBS]; [cRB; cBT; cPCT]; [cDQ; cPCT; cSQ; cRP; cRS; cBT; cRB]; [cBT; cLP; cLS; cDQ; cSQ]; [cRB; cRP; cRS]; [cLB]; [cRB];
    [cPCT]; [cLB]; [cBT]; [cLP; cLS]; [cLP]; [cRP; cRS]; [cDQ; cSQ]].
 Proof. vm_compute. reflexivity. Qed.
 
